@@ -25,14 +25,14 @@ var families = map[string]famDef{
 	"cursor":    {"C10", famCursor, exactRunner},
 	"reads":     {"C16", famReads, exactRunner},
 	"difflinks": {"C07", famDiffLinks, exactRunner},
-	"format":    {"C14", famFormat, Runner{}},
-	"badroots":  {"C19", famBadRoots, Runner{}},
+	"format":    {"C14", famFormat, formatRunner},
+	"badroots":  {"C19", famBadRoots, badRootRunner},
 	"backends":  {"C18", famBackends, Runner{}},
 	"flush":     {"C03", famFlush, exactRunner},
 	"versions":  {"C02", famVersions, exactRunner},
-	"faults":    {"C12", famFaults, Runner{}},
+	"faults":    {"C12", famFaults, faultRunner},
 	"conc":      {"C11", famConc, Runner{}},
-	"filecrash": {"C17", famFileCrash, Runner{}},
+	"filecrash": {"C17", famFileCrash, fileCrashRunner},
 	"diffcost":  {"C15", famDiffCost, exactRunner},
 }
 
@@ -99,12 +99,14 @@ func main() {
 		files, _ := filepath.Glob(filepath.Join(*corpus, "*.json"))
 		sort.Strings(files)
 		for _, p := range files {
-			c := readCase(p)
-			f.RunTreeCase(c, fd.Mk, func(CaseStats) bool { return true })
-			rep.CorpusReplayed++
+			f.corpus = append(f.corpus, readCase(p))
 		}
+		f.corpusRunner = fd.Mk
 	}
 	fd.Run(f)
+	for _, cc := range f.TakeCorpus() {
+		f.RunTreeCase(cc, fd.Mk, func(CaseStats) bool { return true })
+	}
 	f.Finish()
 	writeJSON(*out, rep)
 	if len(rep.Findings) > 0 {
